@@ -276,7 +276,7 @@ def apply(chk, rid, packages, floor, why):
     """Declare and evaluate the rule over the functions of the given top-level packages/modules of irispie."""
     chk.rule(rid, "one-shot iterators are traversed once: a local bound to a generator expression / generator function result / "
              "map, filter, zip object (callees resolved through the repository, fixpoint) is not consumed inside a loop or "
-             f"comprehension that does not contain the binding, nor twice in sequence ({why})", floor=floor)
+             f"comprehension that does not contain the binding, nor twice in sequence ({why})", floor=floor, shape_independent=True)
     n_ex = self_check()
     key = id(chk.repo)
     ix = _INDEX_CACHE.get(key) or GenIndex(chk.repo)
